@@ -86,3 +86,17 @@ impl State {
         self.line_indent += i32::from(!self.token_this_line);
     }
 }
+
+#[cfg(feature = "verif")]
+impl State {
+    /// Abstraction of the indentation-relevant part of the state:
+    /// (cur_indent, line_indent, token_this_line, pending newlines).
+    pub fn verif_key(&self) -> (i32, i32, bool, usize) {
+        (
+            self.cur_indent,
+            self.line_indent,
+            self.token_this_line,
+            self.newlines.len(),
+        )
+    }
+}
